@@ -456,6 +456,38 @@ fn check_constructors(rep: &mut Report) {
     }
 }
 
+/// The accessors of an instruction error agree with each other: `is_recoverable` / `is_fatal` name the variant,
+/// `state()`, `into_state()` and the state `try_recover` hands back are the same state, `map_inner_err` keeps kind
+/// and state.  (The harness reads errors through some of these; the interpreter recovers through `try_recover`.)
+fn check_error_api(rep: &mut Report) {
+    use push::error::{try_recover::TryRecover, Error};
+    use push::instruction::Instruction;
+    let spec = StateSpec { max_steps: 10, exec_max: 4, int_max: 1, float_max: 4, bool_max: 4, exec: vec![], ints: vec![5], floats: vec![], bools: vec![], inputs: vec![] };
+    let cases: Vec<(&str, PushInstruction, bool)> = vec![("recoverable", IntInstruction::Add.into(), true), ("fatal", IntInstruction::push(1).into(), false)];
+    for (name, ins, want_rec) in cases {
+        let before = spec.build();
+        let mut bad: Vec<String> = vec![];
+        match ins.perform(spec.build()) {
+            Ok(_) => bad.push("the instruction succeeded".into()),
+            Err(e) => {
+                let is_rec_variant = matches!(e, Error::Recoverable(_));
+                if is_rec_variant != want_rec { bad.push(format!("variant is {}", if is_rec_variant { "Recoverable" } else { "Fatal" })); }
+                if e.is_recoverable() != is_rec_variant || e.is_fatal() == is_rec_variant { bad.push(format!("is_recoverable() = {}, is_fatal() = {} for a {} error", e.is_recoverable(), e.is_fatal(), if is_rec_variant { "recoverable" } else { "fatal" })); }
+                if *e.state() != before { bad.push("state() is not the state before the instruction".into()); }
+                let mapped = ins.perform(spec.build()).unwrap_err().map_inner_err(|x| format!("{x:?}"));
+                if mapped.is_recoverable() != is_rec_variant || *mapped.state() != before { bad.push("map_inner_err changed the kind or the state of the error".into()); }
+                match (Err(e) as Result<PushState, Error<PushState, push::instruction::instruction_error::PushInstructionError>>).try_recover() {
+                    Ok(s) => if !is_rec_variant || s != before { bad.push("try_recover recovered a fatal error, or not to the carried state".into()); },
+                    Err(f) => if is_rec_variant || f.into_state() != before { bad.push("try_recover did not recover a recoverable error, or lost the state of a fatal one".into()); },
+                }
+            }
+        }
+        rep.case(&format!("error api {name}"), true);
+        rep.hit("error accessor coherence");
+        if !bad.is_empty() { rep.disagree(json!({"case": format!("accessors of a {name} instruction error"), "real": bad, "impl": "is_recoverable / is_fatal / state / into_state / map_inner_err / try_recover agree"})); }
+    }
+}
+
 pub fn run_instr(cfg: &Cfg) -> Report {
     let inv = Inv::new();
     let cat = instr_catalogue(&inv);
@@ -562,6 +594,7 @@ pub fn run_instr(cfg: &Cfg) -> Report {
         rep.disagree(json!({"case": "inventory", "real": format!("only in the crates: {only_real:?}"), "impl": format!("only in the model: {only_model:?}")}));
     }
     check_constructors(&mut rep);
+    check_error_api(&mut rep);
     rep.exhaustive = true;
     rep.notes.push(format!("{} instructions/programs x {} fill patterns x {}^4 capacity patterns x {} value rotations = {} single-step cases; operand sweep: every instruction x all {}x{} int pairs, {}x{} float pairs, 8 bool triples x {{roomy, exactly full}} = {} cases; inventory of {} instruction names cross-checked", cat.len(), fills, nc, rots, total, ni, ni, nfl, nfl, total2, real_names.len()));
     rep
